@@ -448,6 +448,12 @@ def snapBefore (a b : Nat × Nat) : Bool := a.2 < b.2 || (a.2 == b.2 && a.1 < b.
 def snapList (s : Store) (gid : Nat) : List (Nat × Nat) :=
   sortBy snapBefore ((s.snaps.filter (·.gid == gid)).map (fun p => (p.name, p.createdAt)))
 
+/-- `list_group_snapshots` as the manager's hydration sees it: `ORDER BY created_at ASC`, snapshots
+    created in the same second in insertion order (SQLite returns ties in rowid order for this query —
+    an assumption about the query plan, watched by the correspondence check; `sortBy` with `≤` is stable) -/
+def snapListRaw (s : Store) (gid : Nat) : List (Nat × Nat) :=
+  sortBy (fun a b => a.2 ≤ b.2) ((s.snaps.filter (·.gid == gid)).map (fun p => (p.name, p.createdAt)))
+
 def snapPrune (s : Store) (minTs : Nat) : Store × Nat :=
   let gone := s.snaps.filter (·.createdAt < minTs)
   let n := match s.backend with
